@@ -58,6 +58,11 @@ def type_narrow(sid: Sid) -> Sid:
         sid with applied configured queries
     """
 
+    # A Sid still carrying a query could not apply it, and is not searchable (it gets dropped by unfold_search).
+    # Narrowing it would silently replace the given filter by the configured one (eg. "?type=a" by "type=~s").
+    if sid.string.count("?"):
+        return sid
+
     query = basetyped_search_narrowing.get(sid.basetype, "")
     if query:
         sid = sid.get_with(query=query)
